@@ -369,6 +369,14 @@ func main() {
 	fmt.Printf("%s %s seed=%d: %d evaluations, %d distinct, %d batches, %.1fs; violations=%d known=%d inconclusive-cases=%d\n",
 		*prop, *tier, seed, merged.Evaluations, len(distinct), ran, wall, len(real), len(known), merged.Inconclusive)
 
+	if *replay == "" {
+		// replay files of an earlier run with this seed describe another run (another tree, perhaps): they do not survive this one
+		if old, _ := filepath.Glob(filepath.Join(*root, "replays", fmt.Sprintf("%s-%d-*.json", *prop, seed))); len(old) > 0 {
+			for _, f := range old {
+				os.Remove(f)
+			}
+		}
+	}
 	if len(real) > 0 {
 		os.MkdirAll(filepath.Join(*root, "replays"), 0o755)
 		seen := map[string]int{}
